@@ -8,7 +8,7 @@ from twisted.internet.address import IPv4Address
 from twisted.internet.testing import StringTransport
 
 from .. import boot
-from ..result import Result, h64
+from ..result import Result, h64, keep_going
 
 ID = 'C19'
 LEVEL = 'exploration'
@@ -260,7 +260,7 @@ def run_static(spec, res, env):
              b'/link_out', b'/link_out/', b'/../sib', b'/../sib/', b'/dirlink', b'/dirlink/', b'/dirlink/index.html', b'/a/../dirlink']
     n = 0
     reported = set()
-    while res.elapsed() < spec['budget']:
+    while keep_going(res, spec):
         if fixed:
             target, esc = fixed.pop(0), True
         else:
